@@ -28,25 +28,25 @@ import (
 // reports the data races of each simulated schedule.
 
 type c16 struct {
-	tier              string
-	nW1, nW2, nW3     int
-	nCold             int
-	sites             siteTable
-	raceLog           string
-	raceOff           int64
-	st                c16stats
+	tier          string
+	nW1, nW2, nW3 int
+	nCold         int
+	sites         siteTable
+	raceLog       string
+	raceOff       int64
+	st            c16stats
 }
 
 type c16stats struct {
-	Exec, W1, W2, W3, Cold                       int
-	Goroutines, Ops                              int
-	PorcupineOK, PorcupineUnknown                int
-	CallbackFaults, Stalls                       int
-	RaceReportsLibrary, RaceReportsSeen          int
-	Interleavings, Nontrivial                    map[uint64]bool
-	PerCollection                                map[string]int
-	Samples                                      []any
-	OverlappingOps                               int
+	Exec, W1, W2, W3, Cold              int
+	Goroutines, Ops                     int
+	PorcupineOK, PorcupineUnknown       int
+	CallbackFaults, Stalls              int
+	RaceReportsLibrary, RaceReportsSeen int
+	Interleavings, Nontrivial           map[uint64]bool
+	PerCollection                       map[string]int
+	Samples                             []any
+	OverlappingOps                      int
 }
 
 var collectionNames = []string{"Servers", "Tags", "UserTypes", "UserRules", "Interactions", "Directives", "StringSet", "RulesBuilder"}
@@ -86,8 +86,8 @@ func (c *c16) Stats() map[string]any {
 		"porcupine_ok": c.st.PorcupineOK, "porcupine_unknown": c.st.PorcupineUnknown, "callback_faults_injected": c.st.CallbackFaults,
 		"stalled_goroutine_runs": c.st.Stalls, "race_build": raceBuild, "race_reports_in_library": c.st.RaceReportsLibrary,
 		"histories_with_overlapping_operations": c.st.OverlappingOps, "per_collection": c.st.PerCollection,
-		"sched": map[string]any{"switches": sw, "yields": yl, "lock_waits": lw, "once_waits": ow, "switches_inside_library": hot},
-		"pool":  map[string]any{"gets": gets, "reuses": reuses, "cross_goroutine": cross, "drops": drops, "not_most_recent": notLast},
+		"sched":    map[string]any{"switches": sw, "yields": yl, "lock_waits": lw, "once_waits": ow, "switches_inside_library": hot},
+		"pool":     map[string]any{"gets": gets, "reuses": reuses, "cross_goroutine": cross, "drops": drops, "not_most_recent": notLast},
 		"distinct": distinctList(c.st.Interleavings), "distinct_nontrivial_keys": distinctList(c.st.Nontrivial), "samples": c.st.Samples,
 	}
 }
